@@ -561,3 +561,110 @@ def rule_completion_semantics(ctx):
         else:
             r.check(got == {"grounded_extension"}, b.id + "|completion", "producers=%s" % sorted(got), "completion uses grounded extensions (complete)", "a solver without single-extension computation completes its certificate with %s" % sorted(got), drains[0].loc())
     r.floor(n, 4, "certificate completion loops")
+
+
+# ------------------------------------------------------------------------------------------
+# semantics layering: the stage solver is conflict-free based
+
+
+ADMISSIBILITY_BASED = r"(^|[<\s])(utils::grounded_extension_computer::grounded_extension|aa::aa_framework::AAFramework::<T>::grounded_extension|solvers::(grounded_semantics_solver|complete_semantics_solver|preferred_semantics_solver|ideal_semantics_solver)::|utils::equivalency_computer::)"
+
+
+def _feasible(body, bb, env):
+    """can block bb execute when the bool parameters in env {param: bool} have those values?"""
+    for c in conditions(body, bb):
+        p = c.place
+        if c.is_discr or p["p"]:
+            continue
+        l = p["l"]
+        # a compiler temporary copying the parameter
+        if not (1 <= l <= body.n_args):
+            ds = body.defs.get(l, [])
+            if len(ds) == 1 and ds[0].si is not None and ds[0].node["k"] == "assign" and ds[0].node["rv"]["k"] == "use":
+                q = op_place(ds[0].node["rv"]["ops"][0])
+                if q is not None and not q["p"]:
+                    l = q["l"]
+        if l in env:
+            if (c.is_true() and env[l] is False) or (c.is_false() and env[l] is True):
+                return False
+    return True
+
+
+def _const_reach(prog, roots):
+    """call edges reachable from roots, following constant bool arguments into callees and
+    pruning call sites that the callee's branches on those parameters make unreachable.
+    returns (visited body ids, edges [(caller body, site, callee body)])"""
+    seen = set()
+    visited = {}
+    edges = []
+    work = [(b, ()) for b in roots]
+    while work:
+        b, envt = work.pop()
+        if (b.id, envt) in seen or len(seen) > 20000:
+            continue
+        seen.add((b.id, envt))
+        visited[b.id] = b
+        env = dict(envt)
+        # closures created in feasible blocks run with the creator's feasibility
+        for s in b.sites():
+            n = s.node
+            if s.si is not None and n["k"] == "assign" and n["rv"]["k"] == "aggregate" and n["rv"]["agg"].get("kind") == "closure":
+                if _feasible(b, s.bb, env):
+                    clo = prog.by_target[b.target].get(n["rv"]["agg"].get("path"))
+                    if clo is not None:
+                        work.append((clo, ()))
+        for s, t in prog.callees(b, include_closures=False, virtual_dispatch=True):
+            if not _feasible(b, s.bb, env):
+                continue
+            edges.append((b, s, t))
+            cenv = {}
+            if t.kind != "closure":
+                for k, a in enumerate(s.node["args"]):
+                    kk = op_const(a)
+                    if kk is not None and "bool" in kk:
+                        cenv[k + 1] = kk["bool"]
+                    else:
+                        q = op_place(a)
+                        if q is not None and not q["p"]:
+                            for o in origins(b, a, transparent=()):
+                                if o.kind == "param" and not o.fields and o.data in env and len(origins(b, a, transparent=())) == 1:
+                                    cenv[k + 1] = env[o.data]
+            work.append((t, tuple(sorted(cenv.items()))))
+    return visited, edges
+
+
+def rule_stage_layering(ctx, mode=None):
+    prog = ctx.prog
+    which = {None: "", "credulous": "credulous-acceptance ", "skeptical": "skeptical-acceptance ", "extension": "single-extension "}[mode]
+    r = ctx.rule(
+        "stage-is-conflict-free-based",
+        "nothing reachable from the stage solver's %smethods (through helpers shared with the semi-stable solver, closures and trait objects, "
+        "following the constant flags the entry points pass) computes the grounded extension or uses a solver of an admissibility-based "
+        "semantics: stage extensions need not be admissible, so reasoning that is sound for complete sets (e.g. `attacked by the grounded "
+        "extension => in no extension`) must not decide a stage query" % which,
+    )
+    pat = {None: r".", "credulous": r"credulously", "skeptical": r"skeptically", "extension": r"compute_one_extension"}[mode]
+    roots = [b for b in prog.lib_bodies() if b.kind != "closure" and re.search(r"solvers::maximal_range_semantics_solvers::StageSemanticsSolver", b.path) and re.search(pat, b.path.rsplit("::", 1)[-1])]
+    if not r.require_anchor(roots, "methods of solvers::maximal_range_semantics_solvers::StageSemanticsSolver (%s)" % (mode or "all")):
+        return
+    reach, edges = _const_reach(prog, roots)
+    r.floor(len(reach), 20, "bodies reachable from the stage solver")
+    # listed exception: the maximal-range search starts from the grounded extension as *a conflict-free set to improve on*
+    # (MaximalExtensionComputer's Init state); any conflict-free start is valid for the range maximisation, so this use decides nothing
+    START = r"solvers::maximal_extension_computer::MaximalExtensionComputer::<.*>::compute_grounded$"
+    n_bad = 0
+    done = set()
+    for cb, s, t in edges:
+        if t.kind == "closure" or not re.search(ADMISSIBILITY_BASED, t.id) or re.search(ADMISSIBILITY_BASED, cb.id):
+            continue
+        key = (cb.id, t.id)
+        if key in done:
+            continue
+        done.add(key)
+        if re.search(START, cb.id):
+            r.ok("StageSemanticsSolver|%s" % strip_generics(cb.id), "listed: the range search starts from the grounded extension as a conflict-free set (start value only)", s.loc())
+            continue
+        n_bad += 1
+        r.violation("StageSemanticsSolver", "reaches:%s<-%s" % (strip_generics(t.id), strip_generics(cb.id).split("::{closure")[0]), "%s, reachable from the stage solver's %smethods, calls %s: an admissibility-based computation decides a stage query" % (cb.id, which, t.id), s.loc())
+    if not n_bad:
+        r.ok("StageSemanticsSolver", "%d bodies reachable from %d methods, no admissibility-based computation besides the listed start value" % (len(reach), len(roots)))
